@@ -156,12 +156,61 @@ func (c *vCluster) assertHealthy(leaver int, tag string) {
 		}
 		vAssert(f.ev.unlocked == 0, "c04.cluster.events-serialised"+tag)
 	}
+	c.assertEventLogs()
+}
+
+// assertEventLogs: on every live node, replaying its join / leave / update callbacks over the initial table (every
+// node listed) gives exactly what Members() returns now, metadata included.
+func (c *vCluster) assertEventLogs() {
+	for i, f := range c.f {
+		if c.down[i] {
+			continue
+		}
+		listed := map[string]bool{}
+		meta := map[string][]byte{}
+		for j := range c.f {
+			listed[vClusterNames[j]] = true
+		}
+		for _, e := range f.ev.log {
+			switch e.kind {
+			case 1:
+				vAssert(!listed[e.name], "c07.cluster.no-join-of-a-listed-member")
+				listed[e.name], meta[e.name] = true, e.meta
+			case 2:
+				vAssert(listed[e.name], "c07.cluster.no-leave-of-an-unlisted-member")
+				listed[e.name] = false
+			case 3:
+				vAssert(listed[e.name], "c07.cluster.no-update-of-an-unlisted-member")
+				meta[e.name] = e.meta
+			}
+		}
+		n := 0
+		for _, mem := range f.m.Members() {
+			n++
+			vAssert(listed[mem.Name], "c07.cluster.members-are-those-the-events-announced")
+			vAssert(vEqBytes(mem.Meta, meta[mem.Name]), "c07.cluster.metadata-is-what-the-events-announced")
+		}
+		want := 0
+		for _, l := range listed {
+			if l {
+				want++
+			}
+		}
+		vAssert(n == want, "c07.cluster.members-count-matches-the-events")
+	}
 }
 
 // H_C04_Cluster: three responsive nodes, packet latency symbolic below half the probe timeout, a few probe
 // intervals with probes, gossip and one push/pull running concurrently on all nodes while one user operation
 // (metadata update / graceful leave / user broadcast) happens at a chosen round.
-func H_C04_Cluster() {
+func H_C04_Cluster() { vClusterHealthyRun(-1) }
+
+// H_C08_ClusterLeave: the same run with the user operation fixed to a graceful leave of node 2 (C08's composition:
+// Leave returns without error, every peer records the leaver as Left - not failed - and delivers one leave event, and
+// the leaver is gone from every Members(), its own included).
+func H_C08_ClusterLeave() { vClusterHealthyRun(2) }
+
+func vClusterHealthyRun(fixedOp int) {
 	vOpt("threads", 4000)
 	vOpt("timers", 4000)
 	vOpt("sched-det", 1)
@@ -182,7 +231,10 @@ func H_C04_Cluster() {
 		}
 	}
 	rounds := 3
-	op := vPick(4) // 0 none, 1 node 1 updates its metadata, 2 node 2 leaves, 3 node 0 queues a user broadcast
+	op := fixedOp // 0 none, 1 node 1 updates its metadata, 2 node 2 leaves, 3 node 0 queues a user broadcast
+	if op < 0 {
+		op = vPick(4)
+	}
 	at := 0        // the round in which the operation starts (thorough: any)
 	pp := []int{n, 0}[vPick(2)] // who runs a push/pull in round 1 (n = nobody; thorough: anybody)
 	if vTier() == 1 {
@@ -216,6 +268,31 @@ func H_C04_Cluster() {
 	if op == 1 || op == 2 {
 		vAssert(opDone, "c04.cluster.user-operation-returns")
 		vAssert(opErr == nil, "c04.cluster.user-operation-succeeds")
+	}
+	if op == 2 && opDone && opErr == nil && at < rounds-1 {
+		// the departure has had at least one full interval to travel
+		for i, f := range c.f {
+			rec := f.m.nodeMap[vClusterNames[2]]
+			vAssert(rec != nil && rec.State == StateLeft, "c08.cluster.recorded-as-left-everywhere")
+			vAssert(!f.vIsMember(vClusterNames[2]), "c08.cluster.leaver-listed-nowhere")
+			leaves := 0
+			for _, e := range f.ev.log {
+				if e.kind == 2 && e.name == vClusterNames[2] {
+					leaves++
+				}
+			}
+			if i != 2 {
+				vAssert(leaves == 1, "c08.cluster.one-leave-event-per-peer")
+				vAssert(len(f.m.Members()) == n-1, "c08.cluster.everybody-else-still-listed")
+			}
+		}
+		vCover("c08.cluster.left")
+	}
+	if op == 1 && opDone && opErr == nil && at < rounds-1 {
+		for _, f := range c.f {
+			rec := f.m.nodeMap[vClusterNames[1]]
+			vAssert(rec != nil && vEqBytes(rec.Meta, []byte{7}), "c04.cluster.metadata-update-reaches-every-member")
+		}
 	}
 	c.stop()
 	vCover("c04.cluster")
@@ -292,6 +369,7 @@ func H_C03_Cluster() {
 		}
 		vAssert(leaves == 1, "c03.cluster.one-leave-event")
 	}
+	c.assertEventLogs()
 	c.stop()
 	vAdvance(conf.ProbeInterval * time.Duration(conf.AwarenessMaxMultiplier))
 	vCover("c03.cluster")
@@ -368,6 +446,7 @@ func H_C04_SlowDelegate_RT() {
 func init() {
 	vRegister("H_C04_SlowDelegate_RT", H_C04_SlowDelegate_RT)
 	vRegister("H_C04_Cluster", H_C04_Cluster)
+	vRegister("H_C08_ClusterLeave", H_C08_ClusterLeave)
 	vRegister("H_C03_Cluster", H_C03_Cluster)
 	vRegister("H_DBG_Cluster", H_DBG_Cluster)
 }
